@@ -250,6 +250,20 @@ def fam_same_name_edge():
             edges.append(EdgeSpec('p0/opa/r', 'p3/opc/r', fp()))
         out.append((f"F1:same-name-source-and-target:{variant}", ModelSpec('m', ops, nodes, edges,
                                                                          note="edge r -> r")))
+    # SEVERAL sources that are all called like the target's input: two nodes of one type and a node of another type
+    # (each source needs a name of its own inside the generated edge operator)
+    for variant in range(2):
+        fp = FP()
+        ops = {'opa': op_source(fp, 'opa', x='r', lam='la'), 'opb': op_leaky(fp, 'opb', x='r', u='q'),
+               'opc': op_leaky(fp, 'opc', x='v', u='r')}
+        nodes = {'p0': NodeSpec(['opa'], _node_overrides(fp, ops, ['opa'])), 'p1': NodeSpec(['opa'], _node_overrides(fp, ops, ['opa'])),
+                 'p2': NodeSpec(['opc'], _node_overrides(fp, ops, ['opc'])), 'p4': NodeSpec(['opb'], _node_overrides(fp, ops, ['opb']))}
+        edges = [EdgeSpec('p0/opa/r', 'p2/opc/r', fp()), EdgeSpec('p4/opb/r', 'p2/opc/r', fp())]
+        if variant:
+            edges.insert(1, EdgeSpec('p1/opa/r', 'p2/opc/r', fp()))
+            edges.append(EdgeSpec('p2/opc/v', 'p4/opb/q', fp()))
+        out.append((f"F1:same-name-fan-in:{variant}", ModelSpec('m', ops, nodes, edges,
+                                                                note="edges r -> r from several sources into one input")))
     return out
 
 
